@@ -415,22 +415,45 @@ func subAllocAndLimit() mon.Sub {
 				return
 			}
 			for _, lim := range []int64{1, 1 << 20, int64(l) - 1} {
-				c.Count(1)
-				ch := xport.NewChunker(data, xport.Plan{Kind: "whole"})
-				st := ws.StateClientSide
-				if masked {
-					st = ws.StateServerSide
-				}
-				_, err := (&wsutil.Reader{Source: ch, State: st, MaxFrameSize: lim}).NextFrame()
-				if err != wsutil.ErrFrameTooLarge {
-					det["limit"] = lim
-					c.Fail("limit/not-refused", fmt.Sprintf("frame announcing %d bytes with MaxFrameSize=%d returned %v", l, lim, err), det)
-					return
-				}
-				if ch.Pos != len(hb) {
-					det["limit"] = lim
-					c.Fail("limit/payload-read", fmt.Sprintf("%d bytes consumed, header has %d: payload read before the limit refused the frame", ch.Pos, len(hb)), det)
-					return
+				// shapes: the oversized frame alone; as a continuation after a fragment; and as a control frame
+				// between fragments (header checks off, as an application that validates headers itself would run)
+				for shape := 0; shape < 3; shape++ {
+					c.Count(1)
+					st := ws.StateClientSide
+					if masked {
+						st = ws.StateServerSide
+					}
+					var prefix []byte
+					hh := h
+					skip := false
+					if shape > 0 {
+						prefix = ref.Frame{H: ref.Header{Fin: false, Op: ref.OpText, Masked: masked, Mask: [4]byte{3, 3, 3, 3}}, Payload: nil}.Encode()
+						hh.Op = ref.OpCont
+						if shape == 2 {
+							hh.Op, skip = ref.OpPing, true
+						}
+					}
+					hb2 := ref.EncodeHeader(hh)
+					stream := append(append(append([]byte(nil), prefix...), hb2...), bytes.Repeat([]byte{0x55}, 64)...)
+					ch := xport.NewChunker(stream, xport.Plan{Kind: "whole"})
+					rd := &wsutil.Reader{Source: ch, State: st, MaxFrameSize: lim, SkipHeaderCheck: skip}
+					var err error
+					if shape > 0 {
+						if _, err = rd.NextFrame(); err != nil {
+							c.Fail("limit/harness", "empty first fragment refused: "+err.Error(), det)
+							return
+						}
+					}
+					_, err = rd.NextFrame()
+					det["limit"], det["shape"] = lim, []string{"single frame", "continuation", "control frame between fragments"}[shape]
+					if err != wsutil.ErrFrameTooLarge {
+						c.Fail(fmt.Sprintf("limit/not-refused/shape%d", shape), fmt.Sprintf("frame announcing %d bytes with MaxFrameSize=%d returned %v", l, lim, err), det)
+						return
+					}
+					if ch.Pos != len(prefix)+len(hb2) {
+						c.Fail(fmt.Sprintf("limit/payload-read/shape%d", shape), fmt.Sprintf("%d bytes consumed, headers end at %d: payload read before the limit refused the frame", ch.Pos, len(prefix)+len(hb2)), det)
+						return
+					}
 				}
 			}
 			c.Classf("l=%d m=%v", l, masked)
